@@ -136,6 +136,7 @@ def run(chk):
     )
     chk.not_decided = "equality with the reference decoding, progress to EOF in every schedule, the constant factor of the memory bound."
     chk.explanation += " Also decided: the size test inside an accumulating loop is conditional on nothing but the limit and compares a running total. After the defect hunt: a pause request never outlives the feed_data() call that honours it; a stream at EOF does not resume reading; the client protocol must keep a parser that still holds parked input (known finding F65)."
+    chk.explanation += " Round 4 / second hunt: a spent decompressor is replaced before the budget exit parks input; a truncated compressed stream is an error for every coding; the zstd window is bounded; the bound handed to the decoder is at least 1; the decoder is selected by the normalised Content-Encoding token."
     bounded_calls(chk, repo)
 
     # ---- C09.flush ------------------------------------------------------------------------------------------
